@@ -142,6 +142,17 @@ func scripted(ctx *common.Ctx, em *emitter) error {
 		{RID: "r1", Marker: m1, Flags: []string{`\Seen`}, Mboxes: []string{"b2", "b1"}},
 		{RID: "r3", Marker: m3, Flags: []string{"kw1"}, Mboxes: nil},
 	}}, "fresh")
+	// a batch of messages that are all known already, naming a mailbox one of them is not in yet
+	S(&upd{Kind: "MessagesCreated", Items: []mcItem{
+		{RID: "r3", Marker: m3, Flags: []string{"kw1"}, Mboxes: []string{"b2"}},
+		{RID: "r2", Marker: m2, Flags: nil, Mboxes: []string{"b1"}},
+	}}, "fresh")
+	// a new message that is in no mailbox (yet); the next update puts it into one
+	mLone := w.marker()
+	S(&upd{Kind: "MessagesCreated", Items: []mcItem{{RID: "r5", Marker: mLone, Mboxes: nil}}}, "fresh")
+	S(&upd{Kind: "MessageMailboxesUpdated", MsgRID: "r5", Mboxes: []string{"b1"}, Flags: nil}, "fresh")
+	S(&upd{Kind: "MessageDeleted", MsgRID: "r5"}, "fresh")
+	S(&upd{Kind: "MessageMailboxesUpdated", MsgRID: "r3", Mboxes: nil, Flags: []string{"kw1"}}, "fresh")
 	S(&upd{Kind: "MessageFlagsUpdated", MsgRID: "r1", Flags: []string{`\Flagged`, "kw1"}}, "fresh")
 	S(&upd{Kind: "MessageMailboxesUpdated", MsgRID: "r1", Mboxes: []string{"b2", "0"}, Flags: []string{`\Seen`}}, "fresh")
 	S(&upd{Kind: "MessageMailboxesUpdated", MsgRID: "r3", Mboxes: []string{"b1"}, Flags: []string{"kw1"}}, "fresh")
